@@ -38,6 +38,12 @@ func init() {
 		if err != nil {
 			return
 		}
+		if a[0] == "maps" {
+			if p, err := strconv.Atoi(a[2]); err == nil {
+				c05mapsCase(c, n, p, strings.Split(a[3], ","))
+			}
+			return
+		}
 		var want []int
 		for _, s := range strings.Split(a[2], ".") {
 			k, err := strconv.Atoi(s)
@@ -498,6 +504,281 @@ func c05case(c *ctx, mode string, n int, names []int, ops []string) {
 	c.stat(fmt.Sprintf("len_%02d", (len(ops)+4)/5*5), 1)
 }
 
+// ---- maps mode: hosts + their backends through a real Instance; the frontend map files that
+// haproxy.cfg references are decoded back into one entry per host
+
+func c05host(x int) string       { return fmt.Sprintf("h%d.local", x) }
+func c05mapsBackID(x int) string { return fmt.Sprintf("d_b%d_8080", x) }
+
+type c05mapsWorld struct {
+	e    *c05e2e
+	hcur map[int]int // content of the hosts that exist
+	bcur map[int]int // content of the backend of host x (kept when the host is dropped)
+}
+
+// apply does what one resync does with the touched hosts: one RemoveAll of the hosts and of their
+// backends, then every touched host that still exists is parsed once, with its backend
+func (w *c05mapsWorld) apply(touched []int) {
+	cfg := w.e.inst.Config()
+	var hs, bs []string
+	for _, x := range touched {
+		hs = append(hs, c05host(x))
+		bs = append(bs, c05mapsBackID(x))
+	}
+	cfg.Hosts().RemoveAll(hs)
+	cfg.Backends().RemoveAll(bs)
+	for _, x := range touched {
+		w.parse(x)
+	}
+}
+
+func (w *c05mapsWorld) parse(x int) {
+	cfg := w.e.inst.Config()
+	hc, ok := w.hcur[x]
+	if !ok || cfg.Hosts().FindHost(c05host(x)) != nil {
+		return
+	}
+	bc := w.bcur[x]
+	h := cfg.Hosts().AcquireHost(c05host(x))
+	b := cfg.Backends().AcquireBackend("d", fmt.Sprintf("b%d", x), "8080")
+	b.BalanceAlgorithm = fmt.Sprintf("cfg%d", bc/2)
+	b.AcquireEndpoint(fmt.Sprintf("10.0.0.%d", x+1), 8080, "")
+	var paths []*hatypes.HostPath
+	paths = append(paths, h.AddPath(b, "/", hatypes.MatchBegin))
+	if hc%2 == 1 {
+		h.RootRedirect = fmt.Sprintf("/app%d", hc/2)
+	} else {
+		paths = append(paths, h.AddPath(b, fmt.Sprintf("/p%d", hc/2), hatypes.MatchBegin))
+	}
+	for _, hp := range paths {
+		if bp := b.FindBackendPath(hp.Link); bp != nil {
+			bp.SSLRedirect = bc%2 == 1
+		}
+	}
+}
+
+var c05reHost = regexp.MustCompile(`^h(\d+)\.local$`)
+
+func (w *c05mapsWorld) obs() string {
+	cfg := w.e.inst.Config()
+	var hs []string
+	type hc struct{ x, c int }
+	var hl []hc
+	for name, h := range cfg.Hosts().Items() {
+		m := c05reHost.FindStringSubmatch(name)
+		if m == nil {
+			hl = append(hl, hc{9999, 0})
+			continue
+		}
+		x, _ := strconv.Atoi(m[1])
+		c := 9999
+		if strings.HasPrefix(h.RootRedirect, "/app") {
+			v, _ := strconv.Atoi(strings.TrimPrefix(h.RootRedirect, "/app"))
+			c = 2*v + 1
+		} else {
+			for _, p := range h.Paths {
+				if strings.HasPrefix(p.Path(), "/p") {
+					v, _ := strconv.Atoi(strings.TrimPrefix(p.Path(), "/p"))
+					c = 2 * v
+				}
+			}
+		}
+		hl = append(hl, hc{x, c})
+	}
+	sort.Slice(hl, func(i, j int) bool { return hl[i].x < hl[j].x })
+	for _, h := range hl {
+		hs = append(hs, fmt.Sprintf("%d:%d", h.x, h.c))
+	}
+	// effective map content: only files referenced by haproxy.cfg count
+	main, _ := os.ReadFile(filepath.Join(w.e.dir, "haproxy.cfg"))
+	read := func(base string) []string {
+		f := filepath.Join(w.e.dir, "maps", base)
+		if !strings.Contains(string(main), f) {
+			return nil
+		}
+		data, err := os.ReadFile(f)
+		if err != nil {
+			return []string{"<missing-file>"}
+		}
+		var res []string
+		for _, l := range strings.Split(string(data), "\n") {
+			if l = strings.TrimSpace(l); l != "" && !strings.HasPrefix(l, "#") {
+				res = append(res, l)
+			}
+		}
+		return res
+	}
+	type ent struct {
+		root, path []int
+		ssl        int
+	}
+	ents := map[int]*ent{}
+	get := func(host string) *ent {
+		host = strings.SplitN(host, "#", 2)[0]
+		x := 9999
+		if m := c05reHost.FindStringSubmatch(host); m != nil {
+			x, _ = strconv.Atoi(m[1])
+		}
+		if ents[x] == nil {
+			ents[x] = &ent{}
+		}
+		return ents[x]
+	}
+	for _, l := range read("_front_redir_fromroot__exact.map") {
+		f := strings.Fields(l)
+		if len(f) == 2 && strings.HasPrefix(f[1], "/app") {
+			v, _ := strconv.Atoi(strings.TrimPrefix(f[1], "/app"))
+			e := get(f[0])
+			e.root = append(e.root, 2*v+1)
+		} else {
+			get("?").root = append(get("?").root, 9999)
+		}
+	}
+	for _, l := range read("_front_http_host__begin.map") {
+		f := strings.Fields(l)
+		if len(f) != 2 {
+			continue
+		}
+		hp := strings.SplitN(f[0], "#", 2)
+		if len(hp) == 2 && strings.HasPrefix(hp[1], "/p") {
+			v, _ := strconv.Atoi(strings.TrimPrefix(hp[1], "/p"))
+			e := get(hp[0])
+			e.path = append(e.path, 2*v)
+		} else if len(hp) == 2 && hp[1] == "/" {
+			get(hp[0]) // the root path of every host: presence only
+		}
+	}
+	for _, l := range read("_front_redir_root_ssl__exact.map") {
+		get(strings.Fields(l)[0]).ssl++
+	}
+	xs := make([]int, 0, len(ents))
+	for x := range ents {
+		xs = append(xs, x)
+	}
+	sort.Ints(xs)
+	var ms []string
+	for _, x := range xs {
+		e := ents[x]
+		c := 9999 // a host with only its root path line (or with contradicting lines) has no decodable content
+		if len(e.root) == 1 && len(e.path) == 0 {
+			c = e.root[0]
+		} else if len(e.root) == 0 && len(e.path) == 1 {
+			c = e.path[0]
+		}
+		ms = append(ms, fmt.Sprintf("%d:%d:%d", x, c, e.ssl))
+	}
+	j := func(l []string) string {
+		if len(l) == 0 {
+			return "-"
+		}
+		return strings.Join(l, "+")
+	}
+	return j(hs) + "|" + j(ms)
+}
+
+func c05mapsCase(c *ctx, n, p int, ops []string) {
+	args := fmt.Sprintf("maps %d %d %s", n, p, strings.Join(ops, ","))
+	out := func() (res string) {
+		var e *c05e2e
+		defer func() {
+			if r := recover(); r != nil {
+				res = "PANIC"
+				fmt.Fprintf(os.Stderr, "C05 panic on %s: %v\n", args, r)
+			}
+			if e != nil {
+				e.close()
+			}
+		}()
+		e = newC05e2e(n, map[string]int{})
+		e.inst.Config().Global().MatchOrder = hatypes.DefaultMatchOrder
+		w := &c05mapsWorld{e: e, hcur: map[int]int{}, bcur: map[int]int{}}
+		obs := make([]string, 0, len(ops))
+		var touched []int
+		for _, op := range ops {
+			switch {
+			case op == "c":
+				e.inst.Config().Clear()
+				e.inst.Config().Global().MatchOrder = hatypes.DefaultMatchOrder
+				w.hcur = map[int]int{}
+				touched = nil
+			case op == "u":
+				w.apply(touched)
+				touched = nil
+				e.update()
+			default:
+				f := strings.Split(op[1:], ".")
+				x, _ := strconv.Atoi(f[0])
+				switch op[0] {
+				case 'h':
+					w.hcur[x], _ = strconv.Atoi(f[1])
+				case 'b':
+					w.bcur[x], _ = strconv.Atoi(f[1])
+				case 'd':
+					delete(w.hcur, x)
+				default:
+					panic("bad op " + op)
+				}
+				touched = append(touched, x)
+			}
+			obs = append(obs, w.obs())
+		}
+		if e.err != "" {
+			fmt.Fprintf(os.Stderr, "C05 maps: HAProxyUpdate error on %s: %s\n", args, e.err)
+			return "PANIC-update-error"
+		}
+		return strings.Join(obs, ";")
+	}()
+	c.emit("C05", args, out)
+	c.stat("mode_maps", 1)
+}
+
+func c05mapsRandom(c *ctx, r *gen.Rng, count int) {
+	for i := 0; i < count; i++ {
+		p := r.Range(1, 4)
+		n := gen.Pick(r, []int{0, 0, 3})
+		l := r.Range(3, 24)
+		exists := map[int]int{}
+		var ops []string
+		for len(ops) < l {
+			x := r.Intn(p)
+			switch r.Intn(12) {
+			case 0, 1, 2:
+				// mostly root-redirect hosts (odd content)
+				cc := 2*r.Intn(2) + 1
+				if r.Chance(1, 3) {
+					cc = 2 * r.Intn(2)
+				}
+				exists[x] = cc
+				ops = append(ops, fmt.Sprintf("h%d.%d", x, cc))
+			case 3, 4, 5, 6:
+				ops = append(ops, fmt.Sprintf("b%d.%d", x, r.Intn(4)))
+			case 7:
+				delete(exists, x)
+				ops = append(ops, fmt.Sprintf("d%d", x))
+			case 8:
+				// full resync: Clear, then every surviving host is parsed again
+				ops = append(ops, "c")
+				for y := 0; y < p; y++ {
+					if cc, ok := exists[y]; ok {
+						if r.Chance(1, 5) {
+							delete(exists, y)
+							continue
+						}
+						ops = append(ops, fmt.Sprintf("h%d.%d", y, cc))
+					}
+				}
+				ops = append(ops, "u")
+			default:
+				ops = append(ops, "u")
+			}
+		}
+		if ops[len(ops)-1] != "u" {
+			ops = append(ops, "u")
+		}
+		c05mapsCase(c, n, p, ops)
+	}
+}
+
 // ---- generators
 
 var c05patterns = map[int][]int{
@@ -545,6 +826,13 @@ func c05corpus(c *ctx) {
 		// finding stale-backend-on-disk-noop-update (repaired): a batch that only removes a backend
 		c05case(c, "e2e", n, c05names(n, 2), sp("a0.2.1,a1.3.0,u,r0,u"))
 		c05case(c, "e2e", n, c05names(n, 2), sp("a0.2.1,a1.3.0,u,r0,u,r1,u,u"))
+	}
+	for _, n := range []int{0, 3} {
+		// finding stale-frontend-map-entry (repaired): the ingress of a root-redirect host flips
+		// ssl-redirect, the host is parsed again unchanged, only its backend is dirty
+		c05mapsCase(c, n, 1, sp("h0.1,b0.1,u,b0.0,u"))
+		c05mapsCase(c, n, 1, sp("h0.1,u,b0.1,u,b0.3,u,b0.2,u")) // the reverse: missing entry; then a change outside ssl-redirect
+		c05mapsCase(c, n, 2, sp("h0.1,h1.2,b0.1,b1.1,u,b1.0,u,h1.3,u,d0,u,c,h1.3,u"))
 	}
 	for _, n := range []int{3, 0} {
 		nm := c05names(n, 3)
@@ -718,4 +1006,9 @@ func runC05(c *ctx) {
 	c05corpus(c)
 	c05exhaustive(c)
 	c05random(c)
+	nMaps := 300
+	if c.thorough() {
+		nMaps = 5000
+	}
+	c05mapsRandom(c, gen.New(c.seed).Fork(), nMaps)
 }
